@@ -87,6 +87,8 @@ async def play(c):
     first = [True]
     returned = [False]
 
+    polled = [0]
+
     async def receive():
         if first[0]:
             first[0] = False
@@ -96,7 +98,11 @@ async def play(c):
         d = c["disc"] - loop.time()
         if d > 0:
             await asyncio.sleep(d)
-        if not returned[0]:
+        polled[0] += 1
+        if polled[0] > 2000:      # told two thousand times that the client is gone, and asking again: a busy loop
+            from ..servers import Livelock
+            raise Livelock("receive() polled %d times after the disconnect" % polled[0])
+        if not returned[0] and polled[0] == 1:      # (logged once: an application that keeps asking is told again, silently)
             events.append({"e": "disc", "i": 0, "t": now(), "x": ""})
         return {"type": "http.disconnect"}
 
